@@ -238,8 +238,12 @@ func c17Nested(w *mc.Worker, flagsOn map[string]struct{}) {
 	bases := []func() gen.Source{
 		func() gen.Source { return lst(capd("10", allot(sa("a"), sa("b"))), sa("b")) },
 		func() gen.Source { return lst(capd("5", capd("3", sa("a"))), sa("b")) },
-		func() gen.Source { return lst(capd("5", lst(sa("a"), capd("2", sa("b")))), sa("b"), capd("1", sa("world"))) },
-		func() gen.Source { return lst(sa("a"), capd("4", allot(capd("1", sa("a")), sa("b"))), over("b", U, "2")) },
+		func() gen.Source {
+			return lst(capd("5", lst(sa("a"), capd("2", sa("b")))), sa("b"), capd("1", sa("world")))
+		},
+		func() gen.Source {
+			return lst(sa("a"), capd("4", allot(capd("1", sa("a")), sa("b"))), over("b", U, "2"))
+		},
 		func() gen.Source { return capd("7", lst(capd("2", sa("world")), sa("a"))) },
 	}
 	edits := 1
